@@ -295,3 +295,6 @@ CHECKS['C10']['text'] = CHECKS['C10']['text'] + (
 CHECKS['C18']['text'] = CHECKS['C18']['text'] + (
     " Known finding F17 (replayed on every run): at CPython's default recursion limit the recursive DFS raises RecursionError on an augmenting path through "
     ">= ~1000 U vertices (n = 1200 chain graph); termination is proved for the fuelled model, the interpreter's stack limit is outside it.")
+CHECKS['C10']['text'] = CHECKS['C10']['text'] + (
+    " Round 6 (Props/C10Tol): for EVERY split tolerance 0 <= tol_split < 1 (L >= 2) two-site DMRG returns, reports one energy per sweep, leaves a normalised state, "
+    "and every reported energy is >= every lower bound of the dense operator -- the clauses that survive truncation (35 theorems).")
